@@ -119,15 +119,15 @@ Theorem C16_stop_frees_the_port_and_refuses_connects :
   forall cx srv w e s, let a := http_acc srv in
   d6_close_clears (cv cx) = true ->
   t_chan (get_tcp w a) = None -> t_bound (get_tcp w a) = e -> ep_eqb e ep_none = false ->
-  reg_find (w_tcp_reg w) e = Some a -> uniq (w_tcp_reg w) ->
+  reg_find (w_tcp_reg w) e = Some a -> uniq (w_tcp_reg w) -> a_conns (get_tcp w a) = [] ->
   let w' := fst (http_stop cx srv w) in
   reg_find (w_tcp_reg w') e = None /\ t_open (get_tcp w' a) = false /\ hs_close (get_http w' srv) = true /\
   sim_internal_connect cx s e w' = (EC_REFUSED, None, w', []).
 Proof.
-  intros cx srv w e s a D C Bd Ne R U w'.
-  destruct (http_stop_frees_the_port cx srv w e D C Bd Ne R U) as (A1 & A2 & A3).
+  intros cx srv w e s a D C Bd Ne R U Cn w'.
+  destruct (http_stop_frees_the_port cx srv w e D C Bd Ne R U Cn) as (A1 & A2 & A3).
   repeat split; [exact A1|exact A2|exact A3|].
-  exact (connect_after_stop_is_refused cx srv w e s D C Bd Ne R U).
+  exact (connect_after_stop_is_refused cx srv w e s D C Bd Ne R U Cn).
 Qed.
 Print Assumptions C16_stop_frees_the_port_and_refuses_connects.
 
